@@ -1150,6 +1150,16 @@ func callBuiltin(caller *frame, callpos token.Pos, fn *ssa.Builtin, args []value
 			return symstr(view)
 		}
 		return view
+	case "Sizeof", "Alignof":
+		// not folded to a constant only when the operand's type is a type parameter
+		if sig, ok := fn.Type().(*types.Signature); ok && sig.Params().Len() == 1 {
+			sz := types.SizesFor("gc", "amd64")
+			if fn.Name() == "Sizeof" {
+				return uintptr(sz.Sizeof(sig.Params().At(0).Type()))
+			}
+			return uintptr(sz.Alignof(sig.Params().At(0).Type()))
+		}
+		caller.i.abort("unsafe.%s: operand type unknown", fn.Name())
 	case "SliceData":
 		s, _ := args[0].([]value)
 		if cap(s) == 0 {
